@@ -75,6 +75,9 @@ def fmin (x y : α) : α :=
 def clamp (x lo hi : α) : α :=
   if x < lo then lo else if hi < x then hi else x
 
+/-- `if x.is_nan() { 0.0 } else { x }` (identity over ℝ) -/
+def nanToZero (x : α) : α := if KOps.isNaN x then (0.0 : α) else x
+
 /-- Rust `f64::trunc`. -/
 def trunc (x : α) : α := if x < (0.0 : α) then KOps.ceil x else KOps.floor x
 
